@@ -210,7 +210,7 @@ def perturb_ambient(n):
         random.random()
 
 
-def run(spec, *, keep_snaps=True, snapshots_cfg=True, timeout=120, optimizer_obj=None, task_obj=None,
+def run(spec, *, keep_snaps=True, snapshots_cfg=True, timeout=90, optimizer_obj=None, task_obj=None,
         log_args=False, delay=None):
     """Execute spec = {optimizer, config, task, mode, workers, pre_noise}.  `optimizer_obj` / `task_obj` let
     history checks (C08, C18) supply an already used instance."""
